@@ -229,6 +229,50 @@ def c05_split_divide(e):
     return ok and same(t, ref)
 
 
+@_ob("independence", "results are values of their own: divide at 0, 1 or 2 offsets (given as list or iterator), split on newline, copy, "
+                     "t[:] and t + '' - then every result is edited (pad_left, stylize, set_length) and the original must be unchanged; "
+                     "then the original is edited and fresh results taken before must be unchanged")
+def c05_independence(e):
+    t, ref, n = mk_pre(e)
+    L = len(ref.plain)
+    o1 = min(int(e.mk("off1", 0, n)), L)
+    o2 = min(int(e.mk("off2", 0, n)), L)
+    if o1 > o2:
+        o1, o2 = o2, o1
+    noff = int(e.mk("n_offsets", 0, 2))
+    offs = [o1, o2][:noff]
+
+    def results():
+        pieces = t.divide(iter(offs) if as_iter else list(offs))
+        return list(pieces) + list(t.split("\n", allow_blank=True)) + [t.copy(), t[:], t + ""]
+
+    as_iter = True if e.mkbool("offsets_as_iterator") else False
+    bounds_ = [0] + offs + [L]
+    want = [ref.slice(a, b) for a, b in zip(bounds_, bounds_[1:])]
+    plain = ref.plain
+    i = 0
+    for j, ch in enumerate(plain):
+        if ch == "\n":
+            want.append(ref.slice(i, j))
+            i = j + 1
+    want.append(ref.slice(i, L))
+    want += [ref.copy(), ref.copy(), ref.copy()]
+    res = results()
+    if len(res) != len(want) or not all(same(p, w) for p, w in zip(res, want)):
+        return False
+    for p in res:
+        p.pad_left(1, "#")
+        p.stylize("t3", 0, 1)
+        p.set_length(2)
+    if not same(t, ref):
+        return False
+    res = results()
+    t.pad_left(2, "#")
+    t.stylize("t3", 0, 3)
+    t.set_length(3)
+    return all(same(p, w) for p, w in zip(res, want))
+
+
 @_ob("getitem", "t[i] for every index in [-len, len-1] and t[a:b] for a, b in [-4, 4]")
 def c05_getitem(e):
     t, ref, n = mk_pre(e)
@@ -242,10 +286,11 @@ def c05_getitem(e):
     return ok and same(got, ref.slice(a, b)) and same(t, ref)
 
 
-@_ob("pad", "pad / pad_left / pad_right with counts 0..3 and pad characters space and '-'")
+@_ob("pad", "pad / pad_left / pad_right with counts -2..3 (a negative count pads nothing, as ch*count on a str) and pad characters "
+            "space and '-', followed by a second editing step (append / set_length / another pad) so that a stale cached length shows")
 def c05_pad(e):
     t, ref, n = mk_pre(e)
-    k = int(e.mk("count", 0, 3))
+    k = int(e.mk("count", -2, 3))
     ch = " -"[int(e.mk("char", 0, 1))]
     how = int(e.mk("how", 0, 2))
     padding = Ref.of(ch * k)
@@ -258,6 +303,19 @@ def c05_pad(e):
     else:
         t.pad_right(k, ch)
         want = ref + padding
+    if not same(t, want):
+        return False
+    nxt = int(e.mk("then", 0, 2))
+    if nxt == 0:
+        t.append("xy", "t2")
+        want = want + Ref.of("xy", [(0, 2, "t2")])
+    elif nxt == 1:
+        L = len(want.plain) + 1
+        t.set_length(L)
+        want = want + Ref.of(" ")
+    else:
+        t.pad_right(1, "+")
+        want = want + Ref.of("+")
     return same(t, want)
 
 
